@@ -419,5 +419,258 @@ def relations(rng, tier, rpt):
     rpt.extra["raw_kholaw_parent_checks"] = nk
     rpt.extra["impl_relation_checks"] = n
     rpt.extra["known_finding_instances"] = known
+    more = []
+    for f in (_electrum_index_space, _argument_forms):
+        sub = []
+        f(rng, tier, rpt, lambda what, inp, got, want, _s=sub: _s.append(
+            {"property": "C04", "entry_point": what, "request_lines": [], "relation": what, "input": inp, "impl_output": str(got), "model_output": str(want),
+             "no_failing_input": False}), byron_bit255)
+        more += sub[:4]
     # instances of the open finding are reported once and never crowd out other violations
-    return [b for b in bad if not b.get("finding_id")][:8] + [b for b in bad if b.get("finding_id")][:1]
+    return [b for b in bad if not b.get("finding_id")][:8] + more + [b for b in bad if b.get("finding_id")][:1]
+
+
+def _electrum_index_space(rng, tier, rpt, rep, _byron):
+    """Electrum wallets, "all indices accepted by the wrapper": the watch-only wallet (built from the master public key in every documented
+    form) returns, for every (change, address) pair the private wallet derives, the same public key and address — over the WHOLE index range
+    of the wallet: Electrum v1 indexes are plain integers 0..2^32-1 hashed into the sequence string (no hardened/non-hardened distinction),
+    so both sides are compared on the edges of that range, around bit 31 and at random, against an independent derivation (hashlib +
+    coincurve: k_i = k + dSHA256("addr:change:" || mpk) mod n).  The pairs the private wallet refuses (outside 0..2^32-1) are refused by
+    the watch-only one too, with the same documented ValueError; the watch-only wallet never yields a private key.  Electrum v2 (BIP-32
+    underneath): non-hardened pairs over all 31 bits commute, pairs with a hardened index are refused by the watch-only wallet with the key
+    error while the full wallet derives them."""
+    import hashlib
+    import coincurve
+    from harness.props.bip32_common import N_SECP, IDX_EDGE
+    from bip_utils import Secp256k1PublicKey, ElectrumV2Segwit, Bip32Slip10Secp256k1
+    n = 0
+
+    def b58c(b):
+        from harness.props.c05 import B58
+        b += hashlib.sha256(hashlib.sha256(b).digest()).digest()[:4]
+        v, s = int.from_bytes(b, "big"), ""
+        while v:
+            v, r = divmod(v, 58)
+            s = B58[r] + s
+        return "1" * (len(b) - len(b.lstrip(b"\x00"))) + s
+
+    def ref(k, ch, ad):
+        mpk = coincurve.PrivateKey(k).public_key.format(False)[1:]
+        seq = hashlib.sha256(hashlib.sha256(b"%d:%d:" % (ad, ch) + mpk).digest()).digest()
+        child = (int.from_bytes(k, "big") + int.from_bytes(seq, "big")) % N_SECP
+        if child == 0:
+            return None
+        pub = coincurve.PrivateKey(child.to_bytes(32, "big")).public_key.format(False)
+        try:
+            addr = b58c(b"\x00" + hashlib.new("ripemd160", hashlib.sha256(pub).digest()).digest())
+        except ValueError:      # OpenSSL without RIPEMD-160: the address is then compared between the two wallets only
+            addr = None
+        return pub, addr
+
+    def outcome(f):
+        try:
+            return f()
+        except Exception as ex:  # noqa
+            return "raised " + exc_kind(ex)
+    for i in range(6 if tier == "quick" else 150):
+        k = rng.randrange(1, N_SECP).to_bytes(32, "big") if i % 3 else rng.randrange(1, 2**rng.choice([8, 128, 248])).to_bytes(32, "big")
+        full = [ElectrumV1.FromSeed(k), ElectrumV1.FromPrivateKey(k), ElectrumV1.FromPrivateKey(Secp256k1PrivateKey.FromBytes(k))][i % 3]
+        mpk = full.MasterPublicKey()
+        form = ("uncompressed bytes", "compressed bytes", "Secp256k1PublicKey object", "uncompressed bytes")[i % 4]
+        arg = {"uncompressed bytes": mpk.RawUncompressed().ToBytes(), "compressed bytes": mpk.RawCompressed().ToBytes(),
+               "Secp256k1PublicKey object": Secp256k1PublicKey.FromBytes(mpk.RawCompressed().ToBytes())}[form]
+        edge = [0, 1, 2**31 - 1, 2**31, 2**31 + 1, 2**32 - 1]
+        pairs = [(0, 0), (rng.choice(edge), rng.choice(edge)), (0, rng.choice(edge[2:])), (rng.choice(edge[2:]), rng.randrange(5)),
+                 (rng.getrandbits(32), rng.getrandbits(32)), (rng.getrandbits(31) | 2**31, 0), (1, rng.getrandbits(31) | 2**31), (2**32 - 1, 2**32 - 1)]
+        if tier == "thorough":
+            pairs += [(a, b) for a in edge for b in edge]
+        for ch, ad in pairs:
+            n += 1
+            watch = ElectrumV1.FromPublicKey(arg)          # a fresh object: nothing is served from a per-object memo
+            if not watch.IsPublicOnly():
+                rep("ElectrumV1.FromPublicKey(%s) is not public-only" % form, k.hex(), "private", "public-only")
+            r = ref(k, ch, ad)
+            want = (r[0].hex(), r[1] or full.GetAddress(ch, ad)) if r else None
+            first = rng.random() < 0.5
+            calls = [("GetPublicKey", lambda w: w.GetPublicKey(ch, ad).RawUncompressed().ToBytes().hex()), ("GetAddress", lambda w: w.GetAddress(ch, ad))]
+            if first:
+                calls.reverse()
+            got_w = dict((nm, outcome(lambda: f(watch))) for nm, f in calls)
+            got_f = dict((nm, outcome(lambda: f(full))) for nm, f in calls)
+            gw, gf = (got_w["GetPublicKey"], got_w["GetAddress"]), (got_f["GetPublicKey"], got_f["GetAddress"])
+            if want is not None and gf != want:
+                rep("Electrum v1 private wallet: key/address of (change, address) differs from the independent derivation", "key=%s change=%d address=%d" % (k.hex(), ch, ad), gf, want)
+            elif gw != gf:
+                rep("Electrum v1 watch-only wallet (from %s) does not give the public key and address the private wallet gives for the same (change, address) pair" % form,
+                    "master private key=%s change=%d address=%d" % (k.hex(), ch, ad), gw, gf)
+            pk = outcome(lambda: watch.GetPrivateKey(ch, ad).Raw().ToBytes().hex())
+            if pk != "raised Value":
+                rep("Electrum v1 watch-only wallet: GetPrivateKey does not refuse with the documented ValueError", "change=%d address=%d" % (ch, ad), pk, "raised Value")
+        for ch, ad in ((0, 2**32), (2**32, 0), (-1, 0), (0, -1), (2**32 + rng.getrandbits(8), 1), (3, 2**40)):
+            n += 1
+            watch = ElectrumV1.FromPublicKey(arg)
+            gw = (outcome(lambda: watch.GetPublicKey(ch, ad).RawUncompressed().ToBytes().hex()), outcome(lambda: watch.GetAddress(ch, ad)))
+            gf = (outcome(lambda: full.GetPublicKey(ch, ad).RawUncompressed().ToBytes().hex()), outcome(lambda: full.GetAddress(ch, ad)))
+            if gw != gf:
+                rep("Electrum v1: an index pair outside 0..2^32-1 is not treated alike by the watch-only and the private wallet", "change=%d address=%d" % (ch, ad), gw, gf)
+    # Electrum v2 standard wallet: m/change/address by BIP-32
+    for i in range(3 if tier == "quick" else 60):
+        seed = rand_seed(rng)
+        fullm = Bip32Slip10Secp256k1.FromSeed(seed)
+        fs = ElectrumV2Standard(fullm)
+        ws = ElectrumV2Standard(Bip32Slip10Secp256k1.FromPublicKey(fullm.PublicKey().KeyObject(), Bip32KeyData(chain_code=fullm.ChainCode())) if i % 2
+                                else Bip32Slip10Secp256k1.FromExtendedKey(fullm.PublicKey().ToExtended()))
+        for ch, ad in ((2**31 - 1, 2**31 - 1), (rng.getrandbits(31), rng.getrandbits(31)), (0, 2**31 - 1)):
+            n += 1
+            a = (fs.GetPublicKey(ch, ad).RawCompressed().ToBytes().hex(), fs.GetAddress(ch, ad))
+            b = (outcome(lambda: ws.GetPublicKey(ch, ad).RawCompressed().ToBytes().hex()), outcome(lambda: ws.GetAddress(ch, ad)))
+            if a != b:
+                rep("Electrum v2 standard watch-only wallet differs from the full wallet", "seed=%s change=%d address=%d" % (seed.hex(), ch, ad), b, a)
+        for ch, ad in ((0, 2**31), (2**31 + rng.getrandbits(20), 0), (2**32 - 1, 2**32 - 1)):
+            n += 1
+            fs.GetPublicKey(ch, ad)          # the full wallet derives it
+            b = (outcome(lambda: ws.GetPublicKey(ch, ad).RawCompressed().ToBytes().hex()), outcome(lambda: ws.GetAddress(ch, ad)))
+            if b != ("raised Key", "raised Key"):
+                rep("Electrum v2 standard watch-only wallet: a pair with a hardened index is not refused with the key error", "seed=%s change=%d address=%d" % (seed.hex(), ch, ad), b, ("raised Key",) * 2)
+    rpt.extra["electrum_index_space_checks"] = n
+
+
+def _argument_forms(rng, tier, rpt, rep, byron_known):
+    """"parents from raw key + chain code": every documented FORM of the key argument of the constructors that build a public-only object —
+    bytes, a public key object, a point object (Bip32Base.FromPublicKey: bytes | IPoint | IPublicKey; the BIP-44 family, Electrum v1,
+    Substrate: bytes | IPublicKey; Monero.FromWatchOnly: bytes | key objects) — gives the same watch-only object: public-only, the parent's
+    public key, chain code, metadata and extended public key, never a private key, hardened children refused with the key error, and its
+    children and grand-children are the public halves of the privately derived ones.  All BIP-32 style classes, under default and
+    non-default version bytes; the private-key forms (bytes | IPrivateKey) of FromPrivateKey are compared the same way."""
+    import bip_utils as B
+    n = 0
+
+    def view(b):
+        return (b.IsPublicOnly(), b.PublicKey().RawCompressed().ToBytes().hex(), b.ChainCode().ToBytes().hex(), int(b.Depth()), int(b.Index()),
+                b.ParentFingerPrint().ToBytes().hex(), b.FingerPrint().ToBytes().hex(), b.PublicKey().ToExtended(), b.KeyNetVersions().Public().hex())
+
+    def outcome(f):
+        try:
+            return f()
+        except Exception as ex:  # noqa
+            return "raised " + exc_kind(ex)
+    classes = [B.Bip32Slip10Secp256k1, B.Bip32Slip10Nist256p1, B.Bip32KholawEd25519, B.CardanoIcarusBip32, B.CardanoByronLegacyBip32,
+               B.Bip32Slip10Ed25519, B.Bip32Slip10Ed25519Blake2b]
+    kvs = _kvs()
+    for i in range(len(classes) * (1 if tier == "quick" else 20)):
+        cls = classes[i % len(classes)]
+        pubder = cls not in (B.Bip32Slip10Ed25519, B.Bip32Slip10Ed25519Blake2b)
+        seed = bytes(rng.randrange(256) for _ in range(32))
+        kv = kvs[rng.randrange(len(kvs))] if i % 2 else None
+        m = cls.FromSeed(seed, kv) if kv is not None else cls.FromSeed(seed)
+        par = m.ChildKey(rand_index(rng, True))
+        if pubder and rng.random() < 0.5:
+            par = par.ChildKey(rand_index(rng, False))
+        kd = lambda: Bip32KeyData(depth=int(par.Depth()), index=int(par.Index()), chain_code=par.ChainCode().ToBytes(), parent_fprint=par.ParentFingerPrint().ToBytes())  # noqa: E731
+        kobj = par.PublicKey().KeyObject()
+        forms = [("bytes", lambda: kobj.RawCompressed().ToBytes()), ("IPublicKey object", lambda: type(kobj).FromBytes(kobj.RawCompressed().ToBytes())),
+                 ("the parent's own key object", lambda: kobj), ("IPoint object", lambda: kobj.Point()),
+                 ("IPoint object rebuilt from coordinates", lambda: type(kobj.Point()).FromCoordinates(kobj.Point().X(), kobj.Point().Y()))]
+        want = (True,) + view(par)[1:]
+        idxs = [rand_index(rng, False), rng.choice([0, 1, 2**31 - 1])]
+        hard = rand_index(rng, True)
+        for fname, mk in forms:
+            n += 1
+            tag = "%s.FromPublicKey(%s, key data%s)" % (cls.__name__, fname, ", key net versions" if kv is not None else "")
+            try:
+                w = cls.FromPublicKey(mk(), kd(), kv) if kv is not None else cls.FromPublicKey(mk(), kd())
+            except Exception as ex:  # noqa
+                rep("%s: the watch-only parent cannot be built from this documented form of the public key" % tag,
+                    "seed=%s parent depth=%d index=%d" % (seed.hex(), int(par.Depth()), int(par.Index())), "raised %s: %s" % (type(ex).__name__, str(ex)[:80]), str(want))
+                continue
+            if view(w) != want:
+                rep("%s: the watch-only parent is not the public side of the private parent" % tag, "seed=%s" % seed.hex(), view(w), want)
+                continue
+            if outcome(lambda: w.PrivateKey().Raw().ToBytes().hex()) != "raised Key":
+                rep("%s: the public-only object yields a private key (or the wrong error)" % tag, seed.hex(), outcome(lambda: w.PrivateKey().Raw().ToBytes().hex()), "raised Key")
+            r = outcome(lambda: view(w.ChildKey(hard)))
+            if r != "raised Key":
+                rep("%s: hardened derivation from the public-only object is not refused with the key error" % tag, "%s index=%d" % (seed.hex(), hard), r, "raised Key")
+            for idx in idxs:
+                if not pubder:
+                    r = outcome(lambda: view(w.ChildKey(idx)))
+                    if r != "raised Key":
+                        rep("%s: public derivation on SLIP-0010 ed25519 is not refused with the key error" % tag, "%s index=%d" % (seed.hex(), idx), r, "raised Key")
+                    continue
+                if cls is B.CardanoByronLegacyBip32 and (byron_known(par, idx) or byron_known(par.ChildKey(idx), idx)):
+                    continue        # open finding F-byron-pubder (reported by the main relation)
+                pc = par.ChildKey(idx)
+                a = ((True,) + view(pc)[1:], (True,) + view(pc.ChildKey(idx))[1:])
+                b = outcome(lambda: (view(w.ChildKey(idx)), view(w.ChildKey(idx).ChildKey(idx))))
+                if a != b:
+                    rep("%s: children / grand-children of the watch-only parent are not the public halves of the privately derived ones" % tag,
+                        "seed=%s index=%d" % (seed.hex(), idx), b, a)
+                    break
+        # private forms
+        pko = par.PrivateKey().KeyObject()
+        for fname, mk in (("bytes", lambda: pko.Raw().ToBytes()), ("IPrivateKey object", lambda: type(pko).FromBytes(pko.Raw().ToBytes())), ("the parent's own key object", lambda: pko)):
+            n += 1
+            r = outcome(lambda: view(cls.FromPrivateKey(mk(), kd(), kv) if kv is not None else cls.FromPrivateKey(mk(), kd())))
+            if r != view(par):
+                rep("%s.FromPrivateKey(%s, key data): not the parent it was taken from" % (cls.__name__, fname), seed.hex(), r, view(par))
+    # wrappers
+    fam = [(B.Bip44, B.Bip44Coins.BITCOIN), (B.Bip44, B.Bip44Coins.NEO), (B.Bip44, B.Bip44Coins.CARDANO_BYRON_LEDGER), (B.Bip49, B.Bip49Coins.LITECOIN), (B.Bip84, B.Bip84Coins.BITCOIN),
+           (B.Bip86, B.Bip86Coins.BITCOIN), (B.Cip1852, B.Cip1852Coins.CARDANO_ICARUS)]
+    for cls_, coin in fam:
+        seed = bytes(rng.randrange(256) for _ in range(32))
+        acc = cls_.FromSeed(seed, coin).Purpose().Coin().Account(rng.randrange(3))
+        bo = acc.Bip32Object()
+        ix = rng.getrandbits(31)
+        a = acc.Change(Bip44Changes.CHAIN_EXT).AddressIndex(ix).PublicKey()
+        addr = (lambda p: p.RawCompressed().ToHex()) if cls_ is B.Cip1852 else (lambda p: p.ToAddress())   # Shelley addresses need the staking key: the key itself is compared
+        want = (addr(a), a.ToExtended())
+        kobj = bo.PublicKey().KeyObject()
+        for fname, arg in (("bytes", kobj.RawCompressed().ToBytes()), ("IPublicKey object", type(kobj).FromBytes(kobj.RawCompressed().ToBytes()))):
+            n += 1
+            kd = Bip32KeyData(depth=int(bo.Depth()), index=int(bo.Index()), chain_code=bo.ChainCode().ToBytes(), parent_fprint=bo.ParentFingerPrint().ToBytes())
+
+            def go():
+                w = cls_.FromPublicKey(arg, coin, kd)
+                p = w.Change(Bip44Changes.CHAIN_EXT).AddressIndex(ix).PublicKey()
+                return (addr(p), p.ToExtended()) if w.IsPublicOnly() and w.PublicKey().ToExtended() == acc.PublicKey().ToExtended() else "not the public-only account"
+            r = outcome(go)
+            if r != want:
+                rep("%s[%s].FromPublicKey(%s, key data): the watch-only account does not derive the address-level key of the private account" % (cls_.__name__, coin.name, fname),
+                    "seed=%s address index=%d" % (seed.hex(), ix), r, want)
+    # Substrate (soft junctions) and Monero (view-only wallet): key objects vs bytes
+    for i in range(3 if tier == "quick" else 40):
+        seed = bytes(rng.randrange(256) for _ in range(32))
+        coin = list(B.SubstrateCoins)[rng.randrange(len(B.SubstrateCoins))]
+        s = B.Substrate.FromSeed(seed, coin)
+        path = "".join("/" + rng.choice(["0", "a", "stash", str(rng.getrandbits(40))]) for _ in range(rng.randrange(1, 3)))
+        want = (s.DerivePath(path).PublicKey().RawCompressed().ToBytes().hex(), s.DerivePath(path).PublicKey().ToAddress())
+        ko = s.PublicKey().KeyObject()
+        for fname, arg in (("bytes", ko.RawCompressed().ToBytes()), ("IPublicKey object", type(ko).FromBytes(ko.RawCompressed().ToBytes()))):
+            n += 1
+
+            def go():
+                w = B.Substrate.FromPublicKey(arg, coin)
+                c = w.DerivePath(path)
+                return (c.PublicKey().RawCompressed().ToBytes().hex(), c.PublicKey().ToAddress()) if w.IsPublicOnly() and c.IsPublicOnly() else "not public-only"
+            r = outcome(go)
+            if r != want:
+                rep("Substrate[%s].FromPublicKey(%s): soft derivation from the public-only object differs from the public side of the private one" % (coin.name, fname),
+                    "seed=%s path=%s" % (seed.hex(), path), r, want)
+        mo = B.Monero.FromSeed(seed)
+        major, minor = rng.choice([0, 1, rng.getrandbits(16), 2**32 - 1]), rng.choice([0, 1, rng.getrandbits(16), 2**32 - 1])
+        want = (mo.PrimaryAddress(), mo.Subaddress(minor, major), mo.PublicViewKey().RawCompressed().ToBytes().hex())
+        vk, sk = mo.PrivateViewKey().KeyObject(), mo.PublicSpendKey().KeyObject()
+        for fname, a1, a2 in (("bytes, bytes", vk.Raw().ToBytes(), sk.RawCompressed().ToBytes()), ("key objects", type(vk).FromBytes(vk.Raw().ToBytes()), type(sk).FromBytes(sk.RawCompressed().ToBytes())),
+                              ("key object, bytes", vk, sk.RawCompressed().ToBytes())):
+            n += 1
+
+            def go():
+                w = B.Monero.FromWatchOnly(a1, a2)
+                return (w.PrimaryAddress(), w.Subaddress(minor, major), w.PublicViewKey().RawCompressed().ToBytes().hex()) if w.IsWatchOnly() else "not watch-only"
+            r = outcome(go)
+            if r != want:
+                rep("Monero.FromWatchOnly(%s): the view-only wallet does not see the addresses of the full wallet" % fname, "seed=%s subaddress minor=%d major=%d" % (seed.hex(), minor, major), r, want)
+            r = outcome(lambda: B.Monero.FromWatchOnly(a1, a2).PrivateSpendKey().Raw().ToBytes().hex())
+            if r != "raised Key":
+                rep("Monero.FromWatchOnly(%s): the view-only wallet yields a private spend key (or the wrong error)" % fname, seed.hex(), r, "raised Key")
+    rpt.extra["argument_form_checks"] = n
